@@ -205,6 +205,13 @@ impl<'e> Lower<'e> {
     fn resolve_free(&self, segs: &[String], args: &[Ty]) -> std::result::Result<(Ty, Callee), String> {
         let name = segs.last().unwrap().clone();
         if name.starts_with("_mm_") { return self.intrinsic(&name); }
+        if segs.len() >= 2 && segs[segs.len() - 2] == "libm" {
+            let (k, base) = if let Some(b) = name.strip_suffix('f') { if ["fabs", "floor", "ceil", "trunc", "round", "sqrt", "copysign", "fma", "sin", "cos", "tan", "exp", "pow", "acos", "asin", "atan2", "sincos", "fmod"].contains(&b) { ("K32", b.to_string()) } else { ("K64", name.clone()) } } else { ("K64", name.clone()) };
+            let t = if k == "K32" { F32 } else { F64 }; let p = |s: &str| Callee::Prim(s.to_string());
+            return Ok(match base.as_str() { "fabs" => (t, p(&format!("PF1 {k} FAbs"))), "floor" => (t, p(&format!("PF1 {k} FFloor"))), "ceil" => (t, p(&format!("PF1 {k} FCeil"))), "trunc" => (t, p(&format!("PF1 {k} FTrunc"))), "round" => (t, p(&format!("PF1 {k} FRound"))), "sqrt" => (t, p(&format!("PF1 {k} FSqrt"))),
+                "sin" => (t, p(&format!("PF1 {k} FSin"))), "cos" => (t, p(&format!("PF1 {k} FCos"))), "tan" => (t, p(&format!("PF1 {k} FTan"))), "exp" => (t, p(&format!("PF1 {k} FExp"))), "acos" => (t, p(&format!("PF1 {k} FAcos"))), "asin" => (t, p(&format!("PF1 {k} FAsin"))),
+                "copysign" => (t, p(&format!("PF2 {k} FCopysign"))), "pow" => (t, p(&format!("PF2 {k} FPowf"))), "atan2" => (t, p(&format!("PF2 {k} FAtan2"))), "fmod" => (t, p(&format!("PF2 {k} FRem"))), "fma" => (t, p(&format!("PF3 {k} FFma"))),
+                "sincos" => (Tuple(vec![t.clone(), t]), p(&format!("SINCOS {k}"))), o => return Err(format!("libm::{o}")) }); }
         let mut hits: Vec<usize> = self.env.free_fns.iter().filter(|((_, n), _)| n == &name).map(|(_, &i)| i).collect();
         if hits.len() > 1 && segs.len() >= 2 { let q = &segs[segs.len() - 2]; let h2: Vec<usize> = hits.iter().copied().filter(|&i| { let m = &self.env.fns[i].module; m.ends_with(&format!("::{q}")) || m.contains(&format!("::{q}::")) }).collect(); if !h2.is_empty() { hits = h2; } }
         if hits.len() > 1 { let scalar = if self.f.file.contains("f64") || self.f.self_ty.as_ref().map(|t| t.show().starts_with('D')).unwrap_or(false) { "f64" } else { "f32" }; let h3: Vec<usize> = hits.iter().copied().filter(|&i| self.env.fns[i].module.contains(&format!("::{scalar}::"))).collect(); if !h3.is_empty() { hits = h3; } }
@@ -472,6 +479,8 @@ impl<'e> Lower<'e> {
                 // retype literal under negation
                 let (t, x) = if matches!(t, IntLit | FloatLit) { if let Some(et) = expected { if et.is_scalar() && !matches!(et, Bool) { self.ex(&u.expr, Some(et))? } else { (t, x) } } else { (t, x) } } else { (t, x) };
                 match (&u.op, &t) {
+                    (UnOp::Neg(_), F32) if matches!(x, Ir::LitF32(_)) => { let Ir::LitF32(b) = x else { unreachable!() }; Ok((F32, Ir::LitF32(b ^ 0x8000_0000))) }
+                    (UnOp::Neg(_), F64) if matches!(x, Ir::LitF64(_)) => { let Ir::LitF64(b) = x else { unreachable!() }; Ok((F64, Ir::LitF64(b ^ 0x8000_0000_0000_0000))) }
                     (UnOp::Neg(_), F32 | F64) => Ok((t.clone(), prim(&format!("PF1 {} FNeg", fkc(&t)), vec![x]))), (UnOp::Neg(_), Int(k)) => Ok((t.clone(), prim(&format!("PI1 {} INeg", ikc(k)), vec![x]))),
                     (UnOp::Neg(_), IntLit) => if let Ir::LitI(k, v) = x { Ok((IntLit, Ir::LitI(k, -v))) } else { Err("neg lit".into()) }, (UnOp::Neg(_), FloatLit) => if let Ir::LitF64(b) = x { Ok((FloatLit, Ir::LitF64((-f64::from_bits(b)).to_bits()))) } else { Err("neg flit".into()) },
                     (UnOp::Not(_), Bool) => Ok((Bool, prim("PBNot", vec![x]))), (UnOp::Not(_), Int(k)) => Ok((t.clone(), prim(&format!("PI1 {} INot", ikc(k)), vec![x]))),
